@@ -16,7 +16,52 @@ func checkC10(c *Check) {
 	L := c.L
 	c.Expl = "Structural clauses of 'modules expose exactly their public names and initialise once, in order': every write of a module's PublicDecls is control-dependent on the declaration being public, and imports read nothing but PublicDecls (R10.1); an imported (non-main) module compiles only declarations, imports and function definitions (R10.2); the init call of an imported module is emitted only on a miss in the set of already initialised modules, the module is then recorded, and modules are visited in post-order (imports first) over slices with a visited set (R10.3); the circular-import guard (R10.4, = R3.5); the module part of mangled symbol names and of the init/dispose names is derived from the module's unique path key (R10.5). Not decided: the file order of directory imports; hash collisions."
 	// ---------------- R10.1 ----------------
-	r1 := c.Rule("R10.1", "PublicDecls is written only for public declarations; imports read only PublicDecls", 7)
+	r1 := c.Rule("R10.1", "PublicDecls is written only for public declarations; imports read only PublicDecls", 2)
+	// R10.1c: every kind of declaration is entered (the "all of them" half): the static types stored by the writes found
+	// for R10.1 - looked at through helper parameters, i.e. the argument types at the helper's call sites - cover every
+	// concrete type that implements ast.Declaration
+	r1c := c.Rule("R10.1c", "every kind of declaration (constant, variable, function, Kombination, type alias, type definition) has a path that enters it into PublicDecls", 6)
+	storedKinds := map[string]bool{}
+	var kindsOf func(fi *FuncInfo, e ast.Expr, depth int)
+	kindsOf = func(fi *FuncInfo, e ast.Expr, depth int) {
+		info := fi.Pkg.TypesInfo
+		t := info.TypeOf(e)
+		if t == nil {
+			return
+		}
+		if _, isIface := t.Underlying().(*types.Interface); !isIface {
+			if p, ok := t.(*types.Pointer); ok {
+				t = p.Elem()
+			}
+			if n, ok := t.(*types.Named); ok {
+				storedKinds[n.Obj().Name()] = true
+			}
+			return
+		}
+		// an interface-typed parameter of the enclosing function: the kinds are those passed by the callers
+		id, ok := ast.Unparen(e).(*ast.Ident)
+		if !ok || depth > 3 {
+			return
+		}
+		obj := info.Uses[id]
+		idx, k := -1, 0
+		for _, f := range fi.Decl.Type.Params.List {
+			for _, n := range f.Names {
+				if info.Defs[n] == obj {
+					idx = k
+				}
+				k++
+			}
+		}
+		if idx < 0 {
+			return
+		}
+		for _, cs := range L.CallSites(fi.Obj) {
+			if idx < len(cs.Call.Args) {
+				kindsOf(cs.Fn, cs.Call.Args[idx], depth+1)
+			}
+		}
+	}
 	for _, fi := range L.sortedFuncs() {
 		if fi.Decl.Body == nil {
 			continue
@@ -77,8 +122,34 @@ func checkC10(c *Check) {
 				}
 			}
 			r1.Decide(guarded, L.QName(fi.Obj)+"|PublicDecls[k] = d", as.Pos(), "inside `if d.IsPublic && ...`", "a declaration is entered into the module's public table without a test that it is public: importers see a private name")
+			kindsOf(fi, as.Rhs[0], 0)
 			return true
 		})
+	}
+	if ap := L.ByRel["src/ast"]; ap != nil {
+		var declIface *types.Interface
+		if o := ap.Types.Scope().Lookup("Declaration"); o != nil {
+			declIface, _ = o.Type().Underlying().(*types.Interface)
+		}
+		if declIface == nil {
+			r1c.Und("ast.Declaration", token.NoPos, "interface not found")
+		} else {
+			for _, name := range ap.Types.Scope().Names() {
+				tn, ok := ap.Types.Scope().Lookup(name).(*types.TypeName)
+				if !ok || tn.IsAlias() || name == "BadDecl" {
+					continue
+				}
+				if _, isIface := tn.Type().Underlying().(*types.Interface); isIface {
+					continue
+				}
+				if !types.Implements(types.NewPointer(tn.Type()), declIface) {
+					continue
+				}
+				r1c.Decide(storedKinds[name], "ast."+name, tn.Pos(), "a write of PublicDecls stores a value of this kind", "no write of PublicDecls stores a *ast."+name+": public declarations of this kind are never visible to importers")
+			}
+		}
+	} else {
+		r1c.Und("src/ast", token.NoPos, "package not loaded")
 	}
 	if fi := L.Fn("src/ast.IterateImportedDecls"); fi != nil {
 		info := fi.Pkg.TypesInfo
